@@ -13,6 +13,7 @@ import (
 	"github.com/consensys/gnark/frontend"
 	"github.com/consensys/gnark/std/algebra/algopts"
 	"github.com/consensys/gnark/std/algebra/emulated/sw_emulated"
+	"github.com/consensys/gnark/std/evmprecompiles"
 	"github.com/consensys/gnark/std/math/emulated"
 )
 
@@ -137,6 +138,21 @@ func (c *emuCircuit[B, S]) Define(api frontend.API) error {
 	case "AssertIsOnCurve":
 		cr.AssertIsOnCurve(&c.P[0])
 		res = &c.P[0]
+	case "ECAdd", "ECMul":
+		// the EVM precompile wrappers (BN254 only)
+		p0, ok0 := any(&c.P[0]).(*sw_emulated.AffinePoint[emulated.BN254Fp])
+		p1, ok1 := any(&c.P[1]).(*sw_emulated.AffinePoint[emulated.BN254Fp])
+		k0, ok2 := any(&c.K[0]).(*emulated.Element[emulated.BN254Fr])
+		if !ok0 || !ok1 || !ok2 {
+			return errors.New("ECAdd/ECMul are BN254 gadgets")
+		}
+		var rr *sw_emulated.AffinePoint[emulated.BN254Fp]
+		if c.cfg.op == "ECAdd" {
+			rr = evmprecompiles.ECAdd(api, p0, p1)
+		} else {
+			rr = evmprecompiles.ECMul(api, p0, k0)
+		}
+		res = any(rr).(*sw_emulated.AffinePoint[B])
 	default:
 		return errors.New("unknown op " + c.cfg.op)
 	}
@@ -171,6 +187,7 @@ func pointElem[B emulated.FieldParams](p wpt) sw_emulated.AffinePoint[B] {
 
 // emuCase is one executed case of the emulated family.
 type emuCase struct {
+	Pkg      string
 	Curve    string
 	Op       string
 	Complete bool
@@ -203,7 +220,7 @@ func (c *emuCase) replay() map[string]any {
 	for i, k := range c.Ks {
 		ks[i] = k.String()
 	}
-	return map[string]any{"gadget": "sw_emulated." + c.Op, "curve": c.Curve, "complete_arithmetic": c.Complete,
+	return map[string]any{"gadget": c.Pkg + "." + c.Op, "curve": c.Curve, "complete_arithmetic": c.Complete,
 		"class": c.Class, "points": pts, "scalars": ks, "oracle": c.Want.String(), "in_documented_domain": c.InDomain,
 		"native_field": c.Native.String(), "engine": "test.IsSolved"}
 }
